@@ -14,7 +14,8 @@ for f in sorted(glob.glob(os.path.join(ROOT, "evidence", "C*.json"))):
     out.append(f"Obligations: {c.get('obligations')} (discharged {c.get('discharged')}, known findings {c.get('known_findings')}); functions analysed: {c.get('n_functions')}.\n")
     out.append("| rule | engine | instances / floor | statement |\n|---|---|---|---|")
     for r in c.get("rules", []):
-        out.append(f"| {r['id']} | {r['engine']} | {r['instances']} / {r['floor']} | {r['text'].replace('|','\\|')} |")
+        text = r['text'].replace('|', '/')
+        out.append(f"| {r['id']} | {r['engine']} | {r['instances']} / {r['floor']} | {text} |")
     if c.get("information"):
         out.append("\nInformation (never violations):")
         for i in c["information"]:
